@@ -1359,6 +1359,12 @@ class Engine:
                 if ("type:" + c, name) in self.methods:
                     return self.methods[("type:" + c, name)](self, s, recv, args, kwargs)
             raise Unsupported(f"class method {recv.name}.{name}")
+        if isinstance(recv, frozenset) and name in ("isdisjoint", "issubset", "issuperset", "union", "intersection", "difference") and not any(is_sym(x) for x in recv):
+            conv = lambda a_: frozenset(s.H(a_)["@items"]) if isinstance(a_, Ref) and a_.cls == "dict" and "@items" in s.H(a_) else frozenset(self.iter_concrete(a_, s))
+            sets = [conv(a_) for a_ in args]
+            if any(is_sym(x) for st_ in sets for x in st_):
+                raise Unsupported(f"frozenset.{name} with symbolic members")
+            return [(getattr(recv, name)(*sets), s)]
         if isinstance(recv, (str, TS)):
             return [(tstr.str_method(recv, name, args), s)]
         if isinstance(recv, tuple) and name == "index":
@@ -1735,6 +1741,14 @@ class Engine:
                     if (c, "__delitem__") in self.methods:
                         res = self.methods[(c, "__delitem__")](self, s, o, (i,), {})
                         return [("normal", None, s2) for _, s2 in res]
+                if isinstance(o, Ref) and o.cls == "dict" and "@items" in s.H(o) and not is_sym(i) and not any(is_sym(k_) for k_ in s.H(o)["@items"]):
+                    d_ = dict(s.H(o)["@items"])
+                    if i not in d_:
+                        self.raise_(ExcVal("KeyError", (i,)), s)
+                        return []
+                    del d_[i]
+                    s.H(o)["@items"] = d_
+                    continue
                 raise Unsupported("del subscript")
             else:
                 raise Unsupported("del target")
